@@ -971,6 +971,7 @@ def rule_no_park_after_close(ctx, rid="C10.R11", dirs=("/core/", "/sp/"), floor=
                  "a list or in a field of an object, every other function that parks an operation there first tests, under the "
                  "same lock, a flag that the close function set -- an operation submitted by another thread just after the drain "
                  "is otherwise parked for good: it never completes and (for the blocking calls) close waits for its reference", floor=floor)
+    r.own_opinion = True      # the rule looks through file-local helpers itself (drains, guards in callers, serving helpers)
     prog = ctx.prog
     scope = [f for f in prog.functions if not f.cfg_failed and any(d in "/" + f.file for d in dirs)
              and not f.file.endswith("_test.c")]
@@ -1087,9 +1088,25 @@ def rule_no_park_after_close(ctx, rid="C10.R11", dirs=("/core/", "/sp/"), floor=
                 done.add((h.name, line, lf))
                 n += 1
                 # parked and then handed straight to the function that drains when the object is closed
+                def drains_when_closed(k, depth=0):
+                    """helper k calls the draining function g where a closed mark is known to be set (if (x->closed) drain(x)),
+                    or hands on to a helper that does -- reaching g only on some unrelated error path does not serve a closed
+                    object"""
+                    marks = {}
+                    for bid, kk, atom, val in G.edge_facts(k):
+                        if val and atom.get("k") == "mem" and last_field(atom) in flags:
+                            marks[bid] = kk
+                    for c2 in k.calls():
+                        if c2.node.get("fn") == g.name and marks and G.dominated(k, (c2.b, c2.i), marks):
+                            return True
+                        k2 = prog.resolve(k, c2.node["fn"]) if c2.node.get("fn") else None
+                        if depth < 1 and k2 is not None and k2.file == k.file and k2.static and not k2.cfg_failed and k2 is not k and \
+                                k2 is not g and drains_when_closed(k2, depth + 1):
+                            return True
+                    return False
                 served = {(c.b, c.i) for c in h.calls() if c.node.get("fn") == g.name or (
-                    (lambda k: k is not None and k.file == h.file and k.static and not k.cfg_failed and k is not h and reaches_fn(k, g))(
-                        prog.resolve(h, c.node["fn"]) if c.node.get("fn") else None))}
+                    (lambda k: k is not None and k.file == h.file and k.static and not k.cfg_failed and k is not h and k is not g and
+                     drains_when_closed(k))(prog.resolve(h, c.node["fn"]) if c.node.get("fn") else None))}
                 if lf in late:
                     r.ob(h, "%s line %s: drained again when the last reference is gone (fini)" % (lf, line))
                 elif guarded(h, pos):
